@@ -20,6 +20,8 @@ pub enum Who {
     Anon,
     Token,
     Admin,
+    /// authenticated administrator that never selected a database
+    AdminNoDb,
 }
 
 pub fn arg_pool() -> Vec<(&'static str, String)> {
@@ -151,6 +153,9 @@ fn run_sequence(who: Who, lines: &[(String, String)], dir: &str, v: &Verdicts, s
             s.call(&dbs, "auth admin pwd");
             s.call(&dbs, "use-db db tok");
         }
+        Who::AdminNoDb => {
+            s.call(&dbs, "auth admin pwd");
+        }
     }
     fx.node.pump();
     fx.node.pump_sup();
@@ -269,7 +274,7 @@ pub fn words() -> Vec<String> {
 /// hand-written hostile lines that the random grammar reaches only rarely
 pub fn targeted() -> Vec<(Who, Vec<String>)> {
     let mut t: Vec<(Who, Vec<String>)> = vec![];
-    for who in [Who::Anon, Who::Token, Who::Admin] {
+    for who in [Who::Anon, Who::Token, Who::Admin, Who::AdminNoDb] {
         for l in [
             "election candidate x", "election candidate", "election candidate 1", "election candidate -1 n", "election candidate 340282366920938463463374607431768211456 n",
             "set-safe k 2147483647 v", "set-safe k 2147483646 v", "increment k 2147483647", "increment k -2147483648", "resolve 1 db k 2147483647 v",
@@ -310,7 +315,7 @@ pub fn run(tier: &str) -> i32 {
     }
     let n_targeted = cases.len();
     // systematic: every word x every single argument class, for every session kind
-    for who in [Who::Anon, Who::Token, Who::Admin] {
+    for who in [Who::Anon, Who::Token, Who::Admin, Who::AdminNoDb] {
         for w in &words {
             cases.push((who, vec![(w.clone(), format!("{}/", w))]));
             for (c, a) in &pool {
@@ -323,7 +328,7 @@ pub fn run(tier: &str) -> i32 {
     let mut rng = Rng::new(seed());
     let n_random = if thorough { 400_000 } else { 20_000 };
     for _ in 0..n_random {
-        let who = *rng.pick(&[Who::Anon, Who::Token, Who::Token, Who::Admin, Who::Admin]);
+        let who = *rng.pick(&[Who::Anon, Who::Token, Who::Token, Who::Admin, Who::Admin, Who::AdminNoDb]);
         let len = rng.range(1, 4);
         cases.push((who, (0..len).map(|_| gen_line(&mut rng, &words, &pool)).collect()));
     }
